@@ -406,7 +406,9 @@ def load_known():
     if os.path.exists(KNOWN):
         for ln in open(KNOWN):
             ln = ln.strip()
-            if ln and not ln.startswith("#"):
+            if ln.startswith("fixed:"):
+                ents.append({"status": "fixed", "line": ln})
+            elif ln and not ln.startswith("#"):
                 ents.append(json.loads(ln))
     return ents
 
